@@ -67,6 +67,10 @@ func emitSpecs(c *ctx, forLexing bool) []emitSpec {
 	add("ranges", "grammar ranges;\nAA = /[\\x20-\\x2F]+/\nBB = /[\\x5B-\\x60]/\nCC = /\\x7E\\x7F?/\nDD = /[^\\x01-\\x7E]/\nstart = {AA | BB | CC | DD};\n")
 	// a class of 12,800 characters (one 'case' line of the emitted switch is longer than 64 KiB), characters in
 	// U+8000..U+FFFF (three-byte sequences with a lead byte of E8 and above), full-width forms
+	if !forLexing {
+		// code points of the surrogate block have no rune literal of their own
+		add("surrogates", "grammar sur;\nSUR = /a\\xD800b|[\\xDBFF-\\xDC01]+/\nLAST = /\\xDFFF\\xE000/\nREPL = /\\xFFFD+/\nstart = {SUR | LAST | REPL | \"x\"};\n")
+	}
 	if forLexing {
 		// (the compiled lexer is driven on these: narrower classes keep the input generator fast)
 		add("cjk-lex", "grammar cjklex;\nHAN = /[\\x4E00-\\x4E7F]+/\nHI = /[\\x8000-\\x807F\\xE000\\xFFFD]+/\nKANA = /[\\x3040-\\x309F]+/\nFW = /[\\xFF01-\\xFF5E]/\nstart = {HAN | HI | KANA | FW | \"x\"};\n")
